@@ -170,7 +170,18 @@ fn add_references(rng: &mut Rng, root: &mut Obj) {
         }
         if family_of(&o.class) == Family::Widget && !actions.is_empty() && rng.chance(1, 8) && !o.class.starts_with("QTab") {
             let k = 1 + rng.below(actions.len().min(3));
-            let refs: Vec<String> = (0..k).map(|_| rng.pick(actions).clone()).collect();
+            // an entry of the wrong kind now and then (a widget, a layout cast to QObject): the list must be refused — if
+            // it were accepted, an <addaction> would name something that is neither an action nor a menu
+            let refs: Vec<String> = (0..k)
+                .map(|_| {
+                    if !widgets.is_empty() && rng.chance(1, 12) {
+                        let w = rng.pick(widgets).clone();
+                        if rng.chance(1, 2) { w } else { format!("{w} as QObject") }
+                    } else {
+                        rng.pick(actions).clone()
+                    }
+                })
+                .collect();
             o.bindings.push(("actions".into(), format!("[{}]", refs.join(", "))));
         }
         for c in &mut o.children {
